@@ -140,6 +140,11 @@ func init() {
 		Rule: "units = every ordered list of 1..3 distinct branches out of 7 templates (disjoint / overlapping property sets, same or different keyword on the overlapping property, conflicting type, required-only branch, branch without validator) x {allOf, anyOf} x {inline, all by $ref, first by $ref} (1554 units; quick replays a seeded 40%); documents = all 84 assignments of absent / five integers / wrong type to p, absent / short / long / wrong type to q, absent / boolean / wrong type to r. distinct_nontrivial = distinct (unit, document) pairs with a definite reference verdict"}
 }
 
+func init() {
+	families["C14"] = &rt.Family{Prop: "C14", Module: "MC_C14S", PackSize: 1, Judge: "value", JudgeBuild: true,
+		Rule: "second part: every 2- and 3-element subset of 13 property names that collide after normalisation (364 sibling sets), two schemas whose nested / anyOf-branch / definition types collide on their Go type name, and 6 --capitalization lists over 8 names; each unit must compile and every key must land in the field bound to that exact key. distinct_nontrivial = distinct (unit, document) pairs with a definite reference verdict"}
+}
+
 func hasMult(u *rt.Unit) bool {
 	b := fmt.Sprint(u.Raw["schema"], u.Raw["defs"])
 	return containsStr(b, "multipleOf")
@@ -157,6 +162,9 @@ func containsStr(s, sub string) bool {
 func Run(prop, tier string) int {
 	if prop == "C19" {
 		return rt.RunTotal(families[prop], tier)
+	}
+	if prop == "C14" {
+		return rt.RunNames(families[prop], tier)
 	}
 	if prop == "C18" {
 		return rt.RunCLI("C18", tier, "scenarios = flag status (ok / no arguments / no package / mapping without '=' / unknown flag / malformed bool) x output mode (stdout / -o file with a pre-existing sentinel / per-schema files in new directories) x 1..2 (thorough: 3) arguments, each valid or carrying one of 14 file-level faults or one of 13 ungeneratable elements at one of 7 positions (quick: at most one faulty argument among two); plus a seeded byte-level sweep (prefixes, single-byte replacement / deletion / insertion of a valid schema file). distinct_nontrivial = runs that ended with a non-zero status (the clean-failure clause is exercised)")
